@@ -270,4 +270,10 @@ example : encodeMotion 0x4A 0x27 (.change [(.boom, 100), (.arm, -200), (.boom, -
     [{ id := 0x0CA04A27, data := [0x00, 0x80, 255, 255, 255, 255, 255, 255] },
      { id := 0x0CA14A27, data := [0x38, 0xFF, 255, 255, 255, 255, 255, 255] }] := by decide
 
+/-- the encoder these theorems are about dispatches each motion variant to the emitter the current source dispatches it to,
+in `trigger` and in `tick` alike (tables regenerated from hydraulic.rs on every run) -/
+theorem C02_dispatch_translated (m : Motion) :
+    Consts.hcuTriggerArms.contains (Hcu.armRow m) = true ∧ Consts.hcuTickArms.contains (Hcu.armRow m) = true := by
+  cases m <;> simp only [Hcu.armRow] <;> exact ⟨by decide, by decide⟩
+
 end Glonax.Thm.C02
